@@ -124,3 +124,20 @@ META["C16"] = {
     "note": "Trusts refparse's field offsets for the injector and the synth/refparse self-check for the bases.",
     "technique": "runtime monitoring: differential open-mode oracle + documented-deviation injector",
 }
+
+META["C12"] = {
+    "text": "Fault enumeration: for each workload every single position of the underlying read/seek call sequence receives a one-shot "
+            "failure (exhaustive over positions, four variants each), plus pairs; results are compared with the fault-free run and with "
+            "the stream's true content, with retries after each error.",
+    "design_ref": "DESIGN.md section 2, C12",
+    "note": "Exhaustive over fault positions of the listed workloads, not over workloads. Backend is in-memory with injected io::Errors.",
+    "technique": "runtime monitoring: exhaustive single-fault injection at the backing store + content oracle with retry",
+}
+META["C13"] = {
+    "text": "Fault enumeration: every position of the underlying write, seek and flush calls of each mutating workload receives a one-shot "
+            "failure; the backing store's log attributes the failure to the API call that was active, which must report it; an Ok flush "
+            "must be durable as seen by a fresh handle.",
+    "design_ref": "DESIGN.md section 2, C13",
+    "note": "Exhaustive over fault positions of the listed workloads. Drop-time errors excluded as the property says.",
+    "technique": "runtime monitoring: exhaustive single-fault injection with API-call attribution + durability readback",
+}
